@@ -11,7 +11,7 @@ sp = specgen.gen_spec(prof, seed, idx)
 cpp = emit.emit_cpp(sp)
 res = build.build_many([(cpp, c, 'plain', (), ()) for c in cfgs])
 rnd = random.Random(5)
-nev = len(sp['events'])
+nev = len([e for e in sp['events'] if not e.get('kleene')])
 for c, (b, log) in zip(cfgs, res):
     if not b:
         print('cfg', c, 'BUILD FAILED'); print(log[-3000:]); continue
